@@ -30,6 +30,9 @@ DefMatches(post) == /\ Len(defined') = Len(post.defined)
 TreeMatches(post) == /\ Len(trees') = Len(post.trees)
                      /\ \A t \in 1..Len(trees') : /\ Len(trees'[t]) = Len(post.trees[t])
                                                   /\ \A i \in 1..Len(trees'[t]) : trees'[t][i] = AsPt(post.trees[t][i])
+\* the node -> tree map the code keeps (gndx_to_tree, trees counted from 0 there)
+TreeOfMatches(post) == /\ DOMAIN treeOf' = {post.treeof[i][1] : i \in 1..Len(post.treeof)}
+                       /\ \A i \in 1..Len(post.treeof) : treeOf'[post.treeof[i][1]] = post.treeof[i][2] + 1
 Same == UNCHANGED <<pos, defined, treeOf, trees, last>>
 TIni == Ev.op = "init" /\ Same
 TAdd == Ev.op = "add" /\ Ev.n \in Nodes /\ Add(Ev.n, AsPt(Ev.p), Ev.start)
@@ -47,7 +50,7 @@ TInit == /\ tid \in 1..Len(Traces) /\ l = 1
          /\ nops = 0 /\ last = [op |-> "init"]
 TNext == /\ l <= Len(Evs)
          /\ (TIni \/ TAdd \/ TRem \/ TCon \/ TQry \/ TPnt)
-         /\ (Mutating => (PosMatches(Ev.post) /\ DefMatches(Ev.post) /\ TreeMatches(Ev.post)))
+         /\ (Mutating => (PosMatches(Ev.post) /\ DefMatches(Ev.post) /\ TreeMatches(Ev.post) /\ TreeOfMatches(Ev.post)))
          /\ l' = l + 1 /\ tid' = tid /\ nops' = nops
 TSpec == TInit /\ [][TNext]_<<vars, tid, l>>
 Mark == (l = Len(Evs) + 1) => TLCSet(1, TLCGet(1) \cup {tid})
